@@ -6,7 +6,7 @@
    program), [p] = any state left by any earlier requests, [q] = clock, hash, backend behaviour. *)
 From Coq Require Import List ZArith NArith Bool Arith.
 From Falco Require Import Base.Res Base.SMBase Gen.SMConst Gen.ObsEdges Gen.SMKnown Model.SM Model.SMDoc
-  Proofs.SMBasics Proofs.SMPath Proofs.SMCache Proofs.SMReport Proofs.SMEdges Proofs.SMExamples.
+  Proofs.SMBasics Proofs.SMPath Proofs.SMCache Proofs.SMReport Proofs.SMHistory Proofs.SMEdges Proofs.SMExamples.
 Import ListNotations.
 
 (* the flow of every request is a path of the documented machine and starts at vcl_recv with
@@ -54,21 +54,54 @@ Theorem C06_fresh_no_hit_before_fetch : forall orc q rep p',
   existsb is_fetch (r_trace rep) = false -> existsb is_hit (r_trace rep) = false.
 Proof. exact fresh_no_hit_before_fetch. Qed.
 
-(* what vcl_fetch stores is an unexpired object for every clock reading up to its expiry *)
-Theorem C06_fetch_stores : forall orc q c p c' p' nx cacheable ttl,
-  process_fetch orc q c p = (c', p', nx) -> run_sub Fetch (c_restarts c) (orc Fetch (c_restarts c)) <> None ->
-  q_bresp q (c_restarts c) = Some (cacheable, ttl) -> cacheable = true -> (0 < ttl)%Z ->
+(* the same at history level.  (1) After ANY history, the first lookup of the next request takes vcl_hit
+   iff an unexpired object is stored under the request hash in the state that history left (with
+   C06_persist: the state request k+1 is served from).  (2) On a fresh simulator no request of a history
+   runs vcl_hit as long as no request has run vcl_fetch. *)
+Theorem C06_history_hit_iff_stored : forall h p rs p1 orc q r p2,
+  run_history h p = OK (rs, p1) -> run_request orc p1 q = OK (r, p2) -> looks_up_first orc ->
+  (nth_error (r_trace r) 2 = Some (DHit, 0, orc Hit 0) <->
+   stored_fresh (q_now q) (q_hash q 0) (p_cache p1) = true).
+Proof. exact history_hit_iff_stored. Qed.
+
+Theorem C06_history_no_hit_before_any_fetch : forall h p rs p',
+  p_cache p = [] -> run_history h p = OK (rs, p') ->
+  Forall (fun r => existsb is_fetch (r_trace r) = false) rs ->
+  Forall (fun r => existsb is_hit (r_trace r) = false) rs /\ p_cache p' = [].
+Proof. exact history_no_hit_before_any_fetch. Qed.
+
+(* what is stored: a cacheable answer with positive TTL, fetched for a miss (not through vcl_pass) and
+   accepted by vcl_fetch, is an unexpired object for every clock reading up to its expiry ... *)
+Theorem C06_fetch_stores : forall orc q c p c' p' nx ttl,
+  process_fetch orc q c p = (c', p', nx) -> c_pass c = false ->
+  fetch_accepts (run_sub Fetch (c_restarts c) (orc Fetch (c_restarts c))) ->
+  q_bresp q (c_restarts c) = Some (true, ttl) -> (0 < ttl)%Z ->
   forall now', (now' <= q_now q + ttl)%Z ->
   stored_fresh now' (q_hash q (c_restarts c)) (p_cache p') = true.
 Proof. exact fetch_stores. Qed.
 
+(* ... and nothing else is: a passed round, or vcl_fetch ending with pass / hit_for_pass / error / restart,
+   leaves the cache alone; a request that never runs vcl_miss inserts no object at all *)
+Theorem C06_fetch_does_not_store : forall orc q c p c' p' nx,
+  process_fetch orc q c p = (c', p', nx) ->
+  c_pass c = true \/ ~ fetch_accepts (run_sub Fetch (c_restarts c) (orc Fetch (c_restarts c))) ->
+  p_cache p' = p_cache p.
+Proof. exact fetch_does_not_store. Qed.
+
+Theorem C06_no_miss_no_new_keys : forall orc p q rep p',
+  run_request orc p q = OK (rep, p') -> existsb is_miss (r_trace rep) = false ->
+  forall k, has k (p_cache p') = true -> has k (p_cache p) = true.
+Proof. exact no_miss_no_new_keys. Qed.
+
 (* the reported cached flag and X-Cache header are the branch the flow took last (HIT after vcl_hit,
-   MISS after vcl_miss or a pass from vcl_recv); a request without reported error has the header *)
+   MISS after vcl_miss or a pass from vcl_recv); X-Cache-Hits is positive only on that HIT branch;
+   a request without reported error has the header *)
 Theorem C06_report_faithful : forall orc p q rep p',
   q_backend q = true ->
   run_request orc p q = OK (rep, p') ->
   (r_cached rep = true <-> last_branch (r_trace rep) XNone = XHit) /\
   (forall x, r_xcache rep = Some x -> x = last_branch (r_trace rep) XNone) /\
+  (forall h, r_xhits rep = Some h -> 0 < h -> last_branch (r_trace rep) XNone = XHit) /\
   (r_error rep = false -> r_xcache rep <> None).
 Proof. exact report_faithful. Qed.
 
@@ -80,10 +113,10 @@ Theorem C06_persist : forall h1 orc q h2 p rs p',
     run_history h2 p2 = OK (rs2, p') /\ rs = rs1 ++ r :: rs2.
 Proof. exact persist. Qed.
 
-(* O tie - finite, exhaustive: the 320 (position, action, restarts-at-limit) cells of all_cells, each
-   observed on the real interpreter (Gen/ObsEdges.v); equal to the documented machine except the
+(* O tie - finite, exhaustive: the 340 (position, action, restarts-at-limit) cells of all_cells, each
+   observed on the real interpreter (Gen/ObsEdges.v; AAbsent = the subroutine is not defined); equal to the documented machine except the
    recorded finding(s) of Gen/SMKnown.v, which are real; the model takes the observed edge on every cell *)
-Theorem C06_obs_cells_complete : map fst obs_edges = all_cells /\ length all_cells = 320.
+Theorem C06_obs_cells_complete : map fst obs_edges = all_cells /\ length all_cells = 340.
 Proof. exact (conj obs_cells_complete all_cells_count). Qed.
 
 Theorem C06_obs_edges_eq_doc : forall c o,
@@ -117,7 +150,11 @@ Print Assumptions C06_log_last_once.
 Print Assumptions C06_hit_iff_stored.
 Print Assumptions C06_only_recv_looks_up.
 Print Assumptions C06_fresh_no_hit_before_fetch.
+Print Assumptions C06_history_hit_iff_stored.
+Print Assumptions C06_history_no_hit_before_any_fetch.
 Print Assumptions C06_fetch_stores.
+Print Assumptions C06_fetch_does_not_store.
+Print Assumptions C06_no_miss_no_new_keys.
 Print Assumptions C06_report_faithful.
 Print Assumptions C06_persist.
 Print Assumptions C06_obs_cells_complete.
